@@ -40,6 +40,50 @@ func verifC04RegisterBlocks() {
 	_ = ebm.Register(&SignatureBlock{})
 }
 
+// verifC04ConsumeBundle does with an accepted bundle what its consumers in pkg/routing do first: the
+// validity check, the look-ups of the well-known blocks with the type assertions used there
+// (processing.go, pipeline_checks.go, bundle_descriptor.go, algorithm_*.go) and the administrative record
+// decoder on the payload.
+func verifC04ConsumeBundle(b *Bundle) {
+	_ = b.CheckValid()
+	if blk, err := b.ExtensionBlock(ExtBlockTypeHopCountBlock); err == nil {
+		hc := blk.Value.(*HopCountBlock)
+		_ = hc.IsExceeded()
+		hc.Increment()
+	}
+	if blk, err := b.ExtensionBlock(ExtBlockTypePreviousNodeBlock); err == nil {
+		_ = blk.Value.(*PreviousNodeBlock).Endpoint().String()
+	}
+	if blk, err := b.ExtensionBlock(ExtBlockTypeBundleAgeBlock); err == nil {
+		_ = blk.Value.(*BundleAgeBlock).Age()
+	}
+	if blk, err := b.ExtensionBlock(ExtBlockTypeDTLSRBlock); err == nil {
+		_ = blk.Value.(*DTLSRBlock).GetPeerData()
+	}
+	if blk, err := b.ExtensionBlock(ExtBlockTypeProphetBlock); err == nil {
+		_ = blk.Value.(*ProphetBlock).GetPredictabilities()
+	}
+	if blk, err := b.ExtensionBlock(ExtBlockTypeBinarySprayBlock); err == nil {
+		_ = blk.Value.(*BinarySprayBlock).RemainingCopies()
+	}
+	if blk, err := b.ExtensionBlock(ExtBlockTypeSignatureBlock); err == nil {
+		_ = blk.Value.(*SignatureBlock).Verify(*b)
+	}
+	if pb, err := b.PayloadBlock(); err == nil {
+		data := pb.Value.(*PayloadBlock).Data()
+		if b.IsAdministrativeRecord() {
+			if ar, arErr := NewAdministrativeRecordFromCbor(data); arErr == nil {
+				if sr, ok := ar.(*StatusReport); ok {
+					_ = sr.StatusInformations()
+					_ = sr.String()
+				}
+			}
+		}
+	}
+	_ = b.PrimaryBlock.HasFragmentation()
+	_ = b.ID().Scrub().String()
+}
+
 func verifC04Decoders() map[string]verifC04Dec {
 	res := func(err error, canon string) (string, string) {
 		if err != nil {
@@ -66,6 +110,7 @@ func verifC04Decoders() map[string]verifC04Dec {
 					_ = fmt.Sprint(ar)
 				}
 			}
+			verifC04ConsumeBundle(&b)
 			_, _ = json.Marshal(b) // REST agent: /fetch
 			var buf bytes.Buffer
 			_ = b.MarshalCbor(&buf) // forwarding
